@@ -14,7 +14,7 @@ RULE = ('E1 enumeration of material cards: Z = 1..118 (all) x A in {000, 001, a 
         '/ all-negative / mixed signs, mass or atom cell density; two-card decks with MT / MX / MPN / Mnn / MODE cards, comments, continuation lines, upper case around the cards; oracle: independent periodic table; '
         'nuclides in card order with symbol+A (-NAT for 000); DENSITY |rho| with NB_ATOM iff entries positive '
         'and values |entries|, or POINT_WISE with concentrations proportional to the fractions and summing to '
-        'rho; mixed signs -> error; non-trivial = card with a nuclide; distinct = deck text')
+        'rho; mixed signs -> error; non-trivial = card with a nuclide; distinct = deck text; also: a nuclide with a null fraction')
 ASSUMPTIONS = ['TRIPOLI-4 nuclide naming SYMBOL+A / SYMBOL-NAT as used by the writer',
                'metastable ZAIDs (A > 300) are not generated']
 
